@@ -37,6 +37,10 @@ EXPLANATION += ' (R6) validate_shape compares every axis for which an expected s
 TECHNIQUE += '; accessor evaluation on symbols and on special numbers'
 EXPLANATION += ' Added: (R7) the charge / nelec / atcorenums accessors evaluated as values: on symbols (any number) and on the numbers where a truth test or a sign slip shows (zero electrons, zero charge, a negative charge); a rounding call on symbols is an uninterpreted application, so `nelec = round(z - q)` is reported as not equal to z - q. The typestate fragment accepts tuple assignments and truth tests of fields (None is false, a set value generic).'
 # --- end metadata batch 7
+# --- metadata added for batch 8
+TECHNIQUE += '; interpreter-wide setter clause borrowed from C16'
+EXPLANATION += ' Added: (R8) no function reachable from the API switches the attrs validators off for the process (`attrs.validators.disabled()` / `set_disabled`): every other rule of this property rests on them.'
+# --- end metadata batch 8
 
 
 def run(ctx):
